@@ -18,7 +18,7 @@ PID = "C05"
 
 INVALID_KINDS = ["past1", "at0", "at_last", "first_offset", "offsets_order", "indices_order", "overlap",
                  "offset_eq_len", "offset_gt_len", "len_mismatch", "blocks_past", "blocks_equal_index", "overlap_late",
-                 "indices_order_late"]
+                 "indices_order_late", "overlap_early"]
 
 
 def invalid_op(kind, cursor, last_rel):
@@ -38,6 +38,8 @@ def invalid_op(kind, cursor, last_rel):
         return ("wb", [c, c + 5, c + 5], [0, 2, 4], 6)
     if kind == "overlap":
         return ("wb", [c + 2, c + 4], [0, 3], 5)
+    if kind == "overlap_early":  # second block's index is smaller than its data offset
+        return ("wb", [c, c + 2], [0, 3], 5)
     if kind == "overlap_late":  # third block overlaps the second although cumulative offsets stay below cumulative indices
         return ("wb", [c, c + 9, c + 11], [0, 2, 6], 8)
     if kind == "indices_order_late":  # malformed entry far behind the first blocks (beyond the current file)
